@@ -69,6 +69,9 @@ def check_identity(case, ctx):
         if attempt == 1:
             # same id, everything else about the session may differ: explicit pid / architecture / integrity / sleep options
             kw = dict(kw, pid=4242, arch="x64", barch="x86", high_integrity=True, sleeptime=1234, jitter=0, internal_ip="10.1.2.3")
+            if rid is not None and case.get("shift"):
+                # another integer that is presented as the same id (the id is taken modulo 2^32): same id, same keys
+                kw["beacon_id"] = rid + case["shift"] * 2**32
         try:
             c.run(cfg, **kw)
         except ValueError as e:
@@ -363,7 +366,7 @@ def run_shard(shard, ctx):
             rid = rng.choice([0, 1, -1, 2, 3, 2**31 - 1, 2**31 - 2, 2**31, 2**31 + 1, 2**32 - 1, 2**32, 2**32 + 1, -(2**31), -(2**32), 10**30, -(10**30),
                               None, rng.randrange(0, 2**31), rng.randrange(0, 2**31), rng.randrange(-(2**33), 2**33)])
             user, computer, process, nk = gen_names(rng)
-            check_case({"op": "identity", "beacon_id": rid, "user": user, "computer": computer, "process": process, "namekind": nk,
+            check_case({"op": "identity", "beacon_id": rid, "user": user, "computer": computer, "process": process, "namekind": nk, "shift": rng.choice([0, 0, 1, -1, 5]),
                         "key": rng.choice(["rsa1024_a", "rsa1024_a", "rsa2048_a"]), "seed": rng.getrandbits(32)}, ctx)
     elif kind == "sleep":
         for i in range(shard["n"]):
